@@ -4,6 +4,7 @@ from .. import env, attach, gen, flow
 from ..mon_output import mon_value_accounting
 
 PROPERTY = 'C04'
+gen.OFFGRID = 0.12      # some asset windows start or end strictly between two grid points
 CASES = {'quick': 504, 'thorough': 4032}
 BUDGET_S = {'quick': 200, 'thorough': 1800}
 SUITE_UNDER_MONITORS = True      # thorough tier: the repository's own tests are an extra workload under the passive monitors
